@@ -1,0 +1,28 @@
+//! Verification hooks. Compiled only with `--cfg tokio_rs_loom_verif`.
+//!
+//! A per-OS-thread sink receives one line per event: the full decision path
+//! before (`BEGIN`) and after (`END`) every iteration of `Builder::check` and
+//! one line per call of the `rt::Path` API. Nothing is emitted and nothing
+//! changes when no sink is installed.
+
+use std::cell::RefCell;
+
+thread_local! {
+    static SINK: RefCell<Option<Box<dyn FnMut(&str)>>> = RefCell::new(None);
+}
+
+/// Install (or remove) the sink of the calling OS thread.
+pub fn set_sink(sink: Option<Box<dyn FnMut(&str)>>) {
+    SINK.with(|s| *s.borrow_mut() = sink);
+}
+
+pub(crate) fn emit(line: impl FnOnce() -> String) {
+    SINK.with(|s| {
+        if let Ok(mut s) = s.try_borrow_mut() {
+            if let Some(sink) = s.as_mut() {
+                let line = line();
+                sink(&line);
+            }
+        }
+    });
+}
